@@ -29,6 +29,8 @@ var termScenarios = []termScenario{
 	{name: "slow-detach", pods: []termPod{{name: "a", pvc: "c1"}}, attachment: "drainable", slowDetach: true, first: "nodeclaim"},
 	{name: "tgp60-slow-detach", tgp: dur(60 * time.Second), pods: []termPod{{name: "a", pvc: "c1", grace: i64(10)}}, attachment: "drainable", slowDetach: true, first: "nodeclaim"},
 	{name: "node-not-ready", notReady: true, pods: []termPod{{name: "a"}}, first: "nodeclaim"},
+	{name: "tgp300-slow-pods-pdb", tgp: dur(300 * time.Second), slowPods: true, pods: []termPod{{name: "a", pdb: "blocked", grace: i64(120)}}, first: "nodeclaim"},
+	{name: "tgp300-slow-pods-dnd+volume", tgp: dur(300 * time.Second), slowPods: true, pods: []termPod{{name: "a", dnd: "true", grace: i64(120), pvc: "c1"}, {name: "b", grace: i64(30)}}, attachment: "drainable", first: "nodeclaim"},
 	{name: "tiers", pods: []termPod{{name: "a"}, {name: "d", daemon: true}, {name: "c", critical: true}, {name: "z", succeeded: true}}, first: "nodeclaim"},
 }
 
@@ -166,18 +168,19 @@ func init() {
 		if r.Tier == "thorough" {
 			bound, steps = 2, 30
 		}
-		r.Rule = fmt.Sprintf("%d termination scenarios (pods drainable / do-not-disrupt / PDB-blocked / stuck terminating / static / tolerating, volume attachments of drainable and undrainable pods, TGP none/60s, registered or not, Node or NodeClaim deleted first) are driven for %d steps through the real node-termination controller, NodeClaim lifecycle controller (finalize) and eviction queue. "+
+		r.Rule = fmt.Sprintf("%d termination scenarios (pods drainable / do-not-disrupt / PDB-blocked / stuck terminating / static / tolerating, volume attachments of drainable and undrainable pods, slow detach, pods that use their whole grace period, TGP none/60s/300s, registered or not, node NotReady, Node or NodeClaim deleted first) are driven for %d steps through the real node-termination controller, NodeClaim lifecycle controller (finalize) and eviction queue. "+
 			"The default history is a fair cycle of all enabled reconciles, then the environment's progress events (pod finished terminating, volume detached, instance terminated), then clock +6s; every history with <=%d deviations is explored, a deviation being any other enabled reconcile/event inserted (incl. clock jumps, node NotReady, instance vanishing, PDB flip, user deleting the Node, controller restart) or a failed API/provider call (reads included). "+
 			"Oracle at the instant of every finalizer-removing write. non-trivial = distinct (scenario, history)", len(termScenarios), steps, bound)
 		r.Assumptions = []string{"interleaving is at reconcile granularity (a reconcile runs to completion)", "a Node whose NodeClaim object no longer exists is outside the statement"}
-		enum.Run(r, int64(len(termScenarios)), func(i int64, l *ev.Local) {
+		enum.RunEveryShard(r, int64(len(termScenarios)), func(i int64, l *ev.Local) {
 			sc := termScenarios[i]
-			ex := &explore.Explorer{Bound: bound, MaxExecs: 400000, Stop: r.Expired}
+			ex := &explore.Explorer{Bound: bound, MaxExecs: 400000, Stop: r.Expired, Shard: r.Shard, NShards: r.Shards}
 			ex.Exec = func(run *explore.Run) {
+				l.Mute = run.Replica
 				t := buildTerm(sc)
 				t.run(run, steps, func(c *world.Call) bool { return true }, c09After)
 				l.Eval()
-				l.Traces++
+				l.Trace()
 				l.Nontrivial(sc.name + "/" + hist(t))
 				w := t.w
 				ncGone, nodeGone := w.GetNodeClaim(t.nc.Name) == nil, w.GetNode("n1") == nil
@@ -186,13 +189,14 @@ func init() {
 					t.viol = append(t.viol, c01Violation{"instance leaked", "NodeClaim is gone but the provider still has its instance"})
 				}
 				for _, v := range t.viol {
-					l.Violation(v.Sig, fmt.Sprintf("%s  [scenario=%s history=%v]", v.Msg, sc.name, t.history), map[string]any{"scenario": sc.name, "choices": run.Choices(), "history": t.history, "calls": callStrings(w)})
+					l.Violation(v.Sig, fmt.Sprintf("%s  [scenario=%s history=%v]", v.Msg, sc.name, t.history), map[string]any{"scenario": sc.name, "choices": run.Choices(), "faults": run.Plan(), "history": t.history, "calls": callStrings(w)})
 				}
 				if run.Used == bound && len(t.history)%7 == 0 {
 					l.Sample(map[string]any{"scenario": sc.name, "history": t.history, "nodeclaim_gone": ncGone, "node_gone": nodeGone})
 				}
 			}
 			ex.Explore()
+			noteDiverged(l, ex, "prefix")
 			l.Transitions += int64(ex.Points)
 			if ex.Capped {
 				l.Outcome("exploration-capped")
